@@ -253,6 +253,49 @@ def run(chk):
                               % (v, pid, got[0], got[1], login_tab.get(pid)), {'version': v, 'id': pid})
                 break
     chk.extra['state_handover_probes'] = handovers
+    # ---- ... and through a whole session: an ordinary listener that raises IgnorePacket for the login success (that only
+    #      stops later listeners) - the play packets that follow are still decoded by the play table
+    from ..session import Run, TracingScript
+    from ..profile import Profile
+    from minecraft.exceptions import IgnorePacket
+    from minecraft.networking.packets import Packet, clientbound as _cb
+    live = 0
+    for v in (757, 340, 47, 498):
+        if v not in mc.SUPPORTED_PROTOCOL_VERSIONS:
+            continue
+        for ignoring in (True, False):
+            prof = Profile(v)
+            run_ = Run(seed=chk.seed + v)
+
+            def factory(idx, sess, prof=prof, run_=run_):
+                sc = TracingScript(run_, prof, [])
+                sc.steps = [('expect', 2), ('send', prof.login_success(bytes(range(16)), 'verif')), ('call', lambda s_: setattr(s_, 'state', 'play')),
+                            ('send', prof.keep_alive(77)), ('expect', 3), ('send', prof.play_disconnect('{"text":"bye"}'))]
+                return sc
+            run_.serve(factory)
+            seen = []
+
+            def scenario(run_, v=v, ignoring=ignoring, seen=seen):
+                c = run_.make_connection(allowed_versions={v})
+
+                def on_success(pkt):
+                    if ignoring:
+                        raise IgnorePacket
+                c.register_packet_listener(on_success, _cb.login.LoginSuccessPacket)
+                c.register_packet_listener(lambda pkt: seen.append(type(pkt)), Packet)
+                c.connect()
+                run_.settle()
+            run_.go(scenario)
+            live += 1
+            chk.evaluations += 1
+            chk.case(('session-handover', v, ignoring))
+            names = ['%s.%s' % (t.__module__.replace('minecraft.networking.packets.', ''), t.__name__) for t in seen]
+            want = _cb.play.KeepAlivePacket
+            if want not in seen or not any(t.__name__ == 'DisconnectPacket' and 'play' in t.__module__ for t in seen):
+                chk.violation('reactor-dict:session-handover', 'protocol %d, an ordinary listener %s the login success: the keep-alive and the '
+                              'disconnect sent in the play state were delivered as %r' % (v, 'raised IgnorePacket for' if ignoring else 'watched', names),
+                              {'v': v, 'ignoring': ignoring})
+    chk.extra['session_handover_executions'] = live
     # ---- a version the application declares supported at run time (a record appended to
     #      KNOWN_MINECRAFT_VERSION_RECORDS + initglobals(use_known_records=True)): its tables are total and injective
     #      too, and - being later than every id switch in the library - equal to the latest shipped version's
